@@ -116,6 +116,6 @@ register("C17", {
             "CONNECT) followed by 0..5 segments of tunnel bytes sent with the head plus 0..3 later "
             "segments; every segmentation mode including head and data in one read and one byte "
             "per read; caller reads with PRNG sequences of max_bytes (1..64k) and writes in "
-            "between; non-trivial = at least one post-head byte; distinct = event-log digest",
+            "between, and iterates the empty response body before, after or never; non-trivial = at least one post-head byte; distinct = event-log digest",
     "assumptions": ["single caller; the live connection's data are modelled as later segments"],
 }, [UpgradeFamily("C17", "upgrade-async", 3000, 60000)])
